@@ -100,3 +100,15 @@ package layout
 //@   loop 4:
 //@     invariant len(columns) == len(boundaries) && len(columns) == entry(len(columns)) && colsum(columns, len(columns)) == entry(colsum(columns, len(columns)))
 //@     invariant forall k int :: {boundaries[k]} 0 <= k && k < $i ==> !(boundaries[k].left <= fragCenter && fragCenter < boundaries[k].right)
+
+// ---- C11: candidates come only from the margin band of their own page ----
+// Per fragment: it becomes a candidate exactly when its distance from the page edge (top edge for headers, bottom
+// edge for footers; in the page's coordinate system) is less than the band height; the candidate carries the
+// fragment's trimmed text, that distance and the index of ITS page; nothing else is touched.
+//@ func (*HeaderFooterDetector) extractCandidates results (res)
+//@   property C11
+//@   flags nosafety
+//@   loop 2:
+//@     step band_test_decides: let dist = (regionType == Header ? (invertedCoords ? frag.Y - refMinY : refMaxY - (frag.Y + frag.Height)) : (invertedCoords ? refMaxY - (frag.Y + frag.Height) : frag.Y - refMinY)) in let band = (regionType == Header ? headerRegion : footerRegion) in (len(candidates) == prev(len(candidates)) + 1 <==> dist < band) && (len(candidates) == prev(len(candidates)) <==> !(dist < band))
+//@     step candidate_is_this_fragment_on_this_page: len(candidates) == prev(len(candidates)) + 1 ==> candidates[prev(len(candidates))].PageIndex == page.PageIndex && sameseq(candidates[prev(len(candidates))].Text, strings.TrimSpace(frag.Text)) && candidates[prev(len(candidates))].X == frag.X && candidates[prev(len(candidates))].Width == frag.Width
+//@     step earlier_candidates_kept: forall k int :: {candidates[k]} 0 <= k && k < prev(len(candidates)) ==> candidates[k] == prev(candidates)[k]
